@@ -155,6 +155,16 @@ def limit_streams():
                 out.append((limits, "trailer", delta, "request", (base + "3\r\nabc\r\n0\r\n" + pad("X-T: ", F + delta) + "\r\n\r\n").encode(), exp))
                 # trailers count: headers+trailers fields > max_headers must be rejected
                 out.append((limits, "trailer_count", 1, "request", (base + "0\r\n" + "".join(f"T{i}: v\r\n" for i in range(H)) + "\r\n").encode(), "limit"))
+                if delta > 0:
+                    # never terminated: the limit must fire while the line is still incomplete (enforced while reading, not at the terminator)
+                    out.append((limits, "unterminated_request_line", delta, "request", pad("GET /", 3 * L + 50).encode(), "limit"))
+                    out.append((limits, "unterminated_header", delta, "request", ("GET / HTTP/1.1\r\nHost: a\r\n" + pad("X-P: ", 3 * F + 50)).encode(), "limit"))
+                    out.append((limits, "unterminated_header_name", delta, "request", ("GET / HTTP/1.1\r\nHost: a\r\n" + pad("X", 3 * F + 50, "b")).encode(), "limit"))
+                    out.append((limits, "unterminated_trailer", delta, "request", (base + "3\r\nabc\r\n0\r\n" + pad("X-T: ", 3 * F + 50)).encode(), "limit"))
+                    out.append((limits, "unterminated_chunk_size", delta, "request", (base + pad("3;x=", 3 * L + 50)).encode(), "limit"))
+                    for rk in ("response-lax", "response-strict"):
+                        out.append((limits, "unterminated_status_line", delta, rk, pad("HTTP/1.1 200 ", 3 * L + 50, "r").encode(), "limit"))
+                        out.append((limits, "unterminated_resp_header", delta, rk, ("HTTP/1.1 200 OK\r\n" + pad("X-P: ", 3 * F + 50)).encode(), "limit"))
                 # response status line / header
                 for rk in ("response-lax", "response-strict"):
                     out.append((limits, "status_line", delta, rk, (pad("HTTP/1.1 200 ", L + delta, "r") + "\r\nContent-Length: 0\r\n\r\n").encode(), exp))
@@ -176,6 +186,9 @@ def unit_limits(rec: Rec, shard: int, nshards: int, full_cuts: bool) -> None:
             cutsets = [()] + [(i,) for i in range(1, n, 37)] + [(n - k,) for k in range(1, 12)] + [tuple(range(1, n, 101))]
         else:
             cutsets = [()] + [(i,) for i in range(1, n)] + [tuple(range(1, n))]
+        if pos.startswith("unterminated"):
+            # the limit may fire on the read after the one that crossed it: always deliver in at least two reads
+            cutsets = [tuple(sorted(set(c) | {n - 1})) for c in cutsets] + [(n // 2, n - 1)]
         lim_bound = max(limits["max_line_size"], limits["max_field_size"]) + 2
         for cuts in cutsets:
             o = drive(pk, stream, cuts, limits=limits, strict_response=(kind == "response-strict"), track_retained=True)
